@@ -1260,3 +1260,112 @@ func (x *c02ctx) r2x18() {
 		r.Errorf("R02.18: no closure of _case comparing the tag with the case values found")
 	}
 }
+
+func init() {
+	ruleText["R02.19"] = "a location that receives a result is allocated when the statement executes: in the generators of package interp no value allocated when the closure is generated (reflect.New(...) outside the run-time closures) is written (Set* on it) or stored through a wrapper built around it (an interface value holding the cell) inside a run-time closure - one cell per generated closure is shared by every execution of the statement, so the results returned earlier change when the statement runs again"
+}
+
+// r2x19: round-7 seed. genValueOutput allocated the cell of an operation result returned as an
+// interface value once, when the closure was generated: a later evaluation of return a + b
+// changed the values returned earlier.
+func (x *c02ctx) r2x19() {
+	ic, r := x.ic, x.r
+	info := ic.Info
+	nFn, nBad := 0, 0
+	for _, name := range sortedKeys(ic.F) {
+		fi := ic.F[name]
+		if fi.Decl.Body == nil {
+			continue
+		}
+		closures := x.closuresOf(fi)
+		if len(closures) == 0 {
+			continue
+		}
+		inClosure := func(p token.Pos) *ast.FuncLit {
+			for _, fl := range closures {
+				if fl.Pos() <= p && p <= fl.End() {
+					return fl
+				}
+			}
+			return nil
+		}
+		// generation-time cells: locals assigned from reflect.New(...).Elem() / reflect.New(...) outside closures,
+		// and locals built from them (a wrapper holding the cell)
+		cells := map[types.Object]token.Pos{}
+		wrappers := map[types.Object]bool{} // values built around a cell (they hold the cell, not a copy of its content)
+		for pass := 0; pass < 2; pass++ {
+			ast.Inspect(fi.Decl.Body, func(q ast.Node) bool {
+				as, ok := q.(*ast.AssignStmt)
+				if !ok || len(as.Lhs) != len(as.Rhs) || inClosure(as.Pos()) != nil {
+					return true
+				}
+				for i, rh := range as.Rhs {
+					id := identOf(as.Lhs[i])
+					if id == nil || info.ObjectOf(id) == nil {
+						continue
+					}
+					isCell := false
+					if c, ok := unparen(rh).(*ast.CallExpr); ok && len(callsIn(info, c, true, "reflect.New")) > 0 {
+						isCell = true
+					}
+					ast.Inspect(rh, func(z ast.Node) bool {
+						if zid, ok := z.(*ast.Ident); ok {
+							if _, known := cells[info.ObjectOf(zid)]; known && identOf(rh) == nil {
+								isCell = true
+								wrappers[info.ObjectOf(id)] = true
+							}
+						}
+						return true
+					})
+					if isCell {
+						if t := info.TypeOf(as.Lhs[i]); t != nil && types.TypeString(t, nil) == "reflect.Value" {
+							cells[info.ObjectOf(id)] = as.Pos()
+						}
+					}
+				}
+				return true
+			})
+		}
+		if len(cells) == 0 {
+			continue
+		}
+		nFn++
+		for ci, fl := range closures {
+			var bad []string
+			ast.Inspect(fl.Body, func(q ast.Node) bool {
+				switch y := q.(type) {
+				case *ast.CallExpr:
+					se, ok := unparen(y.Fun).(*ast.SelectorExpr)
+					if !ok {
+						return true
+					}
+					// written: cell.SetX(...)
+					if strings.HasPrefix(se.Sel.Name, "Set") {
+						if id := identOf(se.X); id != nil {
+							if _, isCell := cells[info.ObjectOf(id)]; isCell {
+								bad = append(bad, id.Name+" (allocated at "+ic.pos(cells[info.ObjectOf(id)])+") is set at "+ic.pos(y.Pos()))
+							}
+						}
+						// stored as a value elsewhere: d.Set(cell) where cell is a wrapper built at generation time holding a cell
+						if se.Sel.Name == "Set" && len(y.Args) == 1 {
+							if id := identOf(y.Args[0]); id != nil {
+								if at, isCell := cells[info.ObjectOf(id)]; isCell && wrappers[info.ObjectOf(id)] {
+									bad = append(bad, id.Name+" (allocated at "+ic.pos(at)+") is stored at "+ic.pos(y.Pos()))
+								}
+							}
+						}
+					}
+				}
+				return true
+			})
+			if len(bad) > 0 {
+				nBad++
+				r.Fail("R02.19", fmt.Sprintf("%s/closure#%d/result-location-allocated-per-execution", name, ci+1), ic.pos(fl.Pos()),
+					"the run-time closure generated by "+name+" uses a location allocated once, when the closure was generated: "+strings.Join(dedupStr(bad), "; ")+". Every execution of the statement writes the same cell: the interface values (or results) handed out earlier change when the statement runs again - x := f(1, 2); y := f(3, 4) with func f(a, b int) fmt.Stringer-like interface { return a + b } makes x follow y")
+			}
+		}
+	}
+	if nBad == 0 {
+		r.Pass("R02.19", "package/result-locations-allocated-per-execution", "", fmt.Sprintf("%d generators allocate reflect values when the closure is generated; none of those values is written or handed out as a result location by a run-time closure", nFn))
+	}
+}
